@@ -1066,11 +1066,18 @@ class AnsiString:
         for key, settings in sorted(incoming_fmts.items()):
             key += shift
             if key in self._fmts:
+                merge = False
                 if (
                     key == shift
                     and settings.add
                     and self._fmts[key].rem[:len(settings.add)] == settings.add
                 ):
+                    # Merging makes the added string continue my settings with MY precedence among them, which is
+                    # only right when they are stacked in the order in which the added string applies them
+                    ending = self._fmts[key].rem[:len(settings.add)]
+                    active = [s for s in self.ansi_settings_at(shift - 1) if any(s is e for e in ending)]
+                    merge = len(active) == len(ending) and all(a is e for a, e in zip(active, ending))
+                if merge:
                     # Special case - the string being added contains same formatting as end of my string.
                     # Because the settings work based on references instead of values, the settings not only
                     # need to be removed here but changed where they are removed in the added string.
